@@ -493,7 +493,11 @@ func walkKey(key string, cc *ssa.CallCommon) string {
 	if key != "filepath.Walk" || len(cc.Args) != 2 {
 		return ""
 	}
-	if mc, ok := cc.Args[1].(*ssa.MakeClosure); ok {
+	a := cc.Args[1]
+	if ct, ok := a.(*ssa.ChangeType); ok {
+		a = ct.X
+	}
+	if mc, ok := a.(*ssa.MakeClosure); ok {
 		return key + "[" + funcKey(mc.Fn.(*ssa.Function)) + "]"
 	}
 	return ""
